@@ -69,22 +69,36 @@ class FnTranslator:
         self.callable_params = {}
         self.locals = []
         self.tmp = 0
+        self.aux = []            # Lean text of loop functions, emitted before the main definition
+        self.nloops = 0
+        self.in_loop = 0
+        self.lean_name = fn_node.name
         self._scan()
 
     # ------------------------------------------------------------------ scanning
     def _scan(self):
         for node in ast.walk(self.fn):
+            if isinstance(node, ast.Call) and isinstance(node.func, ast.Name) and node.func.id in self.known:
+                for i, a in enumerate(node.args):
+                    if i in self.known[node.func.id][1] and isinstance(a, ast.Name) and a.id in self.params:
+                        self.callable_params.setdefault(a.id, self.known[node.func.id][1][i])
             if isinstance(node, ast.Call) and isinstance(node.func, ast.Name) and node.func.id in self.params:
                 ar = self.callable_params.setdefault(node.func.id, len(node.args))
                 if ar != len(node.args):
                     raise Untranslatable(f'{self.fn.name}: parameter {node.func.id} called with different arities')
             tgts = []
+            if isinstance(node, ast.For):
+                if not isinstance(node.target, ast.Name):
+                    raise Untranslatable(f'{self.fn.name}: loop target {ast.dump(node.target)[:60]}')
+                tgts = [node.target]
             if isinstance(node, ast.Assign):
                 tgts = node.targets
             elif isinstance(node, ast.AugAssign):
                 tgts = [node.target]
             for t in tgts:
-                for n in ([t] if isinstance(t, ast.Name) else (t.elts if isinstance(t, ast.Tuple) else [None])):
+                for n in ([t] if isinstance(t, ast.Name) else (t.elts if isinstance(t, ast.Tuple) else [t])):
+                    while isinstance(n, ast.Subscript):      # x[i] = e / x[i][j] += e  assigns (a new value) to x
+                        n = n.value
                     if not isinstance(n, ast.Name):
                         raise Untranslatable(f'{self.fn.name}: assignment target {ast.dump(t)[:60]}')
                     if n.id not in self.locals:
@@ -146,7 +160,23 @@ class FnTranslator:
                 return f'(V.tup2 {self.expr(e.elts[0])} {self.expr(e.elts[1])})'
             if len(e.elts) == 3:
                 return f'(V.tup3 {self.expr(e.elts[0])} {self.expr(e.elts[1])} {self.expr(e.elts[2])})'
+            if len(e.elts) == 0:
+                return 'V.nil'
             raise Untranslatable('tuple of length %d' % len(e.elts))
+        if isinstance(e, ast.List):
+            acc = 'V.nil'
+            for x in reversed(e.elts):
+                acc = f'(V.cons {self.expr(x)} {acc})'
+            return acc
+        if isinstance(e, ast.Subscript):
+            sl = e.slice
+            if isinstance(sl, ast.Slice):
+                if sl.lower is None and sl.upper is None and isinstance(sl.step, ast.UnaryOp) \
+                        and isinstance(sl.step.op, ast.USub) and isinstance(sl.step.operand, ast.Constant) \
+                        and sl.step.operand.value == 1:
+                    return f'(← V.reversed {self.expr(e.value)})'
+                raise Untranslatable('slice subscript other than [::-1]')
+            return f'(← V.getItem {self.expr(e.value)} {self.expr(sl)})'
         if isinstance(e, ast.Call):
             return self.call(e)
         raise Untranslatable(f'expression {type(e).__name__}')
@@ -155,6 +185,17 @@ class FnTranslator:
         if e.keywords:
             raise Untranslatable('keyword arguments in a call')
         f = e.func
+        if isinstance(f, ast.Name) and f.id in self.known and not e.keywords:
+            cpos = self.known[f.id][1]
+            args = []
+            for i, a in enumerate(e.args):
+                if i in cpos:
+                    if not (isinstance(a, ast.Name) and a.id in self.callable_params):
+                        raise Untranslatable(f'callable argument {i} of {f.id} is not a callable parameter')
+                    args.append(self.nm(a.id))
+                else:
+                    args.append(self.expr(a))
+            return f'(← {self.known[f.id][0]} {" ".join(args)})'
         if isinstance(f, ast.Name) and f.id == 'isinstance':
             if len(e.args) == 2 and isinstance(e.args[1], ast.Name) and e.args[1].id == 'Integral':
                 return f'(V.bool (V.isIntegral {self.expr(e.args[0])}))'
@@ -172,7 +213,11 @@ class FnTranslator:
         if name in self.callable_params:
             return f'(← {self.nm(name)} {" ".join(args)})'
         if name in self.known:
-            return f'(← {self.known[name]} {" ".join(args)})'
+            return f'(← {self.known[name][0]} {" ".join(args)})'
+        if name == 'len' and len(args) == 1:
+            return f'(← V.len {args[0]})'
+        if name in ('tuple', 'list') and len(args) == 1:
+            return f'(← V.asList {args[0]})'
         if name == 'int' and len(args) == 1:
             return f'(← V.toInt {args[0]})'
         if name == 'abs' and len(args) == 1:
@@ -242,7 +287,71 @@ class FnTranslator:
     def assign_to(self, target, value_term, ind):
         if isinstance(target, ast.Name):
             return [f'{ind}{self.nm(target.id)} := {value_term}']
+        if isinstance(target, ast.Subscript) and not isinstance(target.slice, ast.Slice):
+            # x[i] = v  ==>  x := setItem x i v   (recursively for x[i][j] = v; value semantics — the fragment
+            # has no aliasing: a container is only ever reachable through one name)
+            t = self.fresh()
+            out = [f'{ind}let {t} := (← V.setItem {self.expr(target.value)} {self.expr(target.slice)} {value_term})']
+            return out + self.assign_to(target.value, t, ind)
         raise Untranslatable('assignment target')
+
+    # ---- loops -----------------------------------------------------------------------------------
+    def allvars(self):
+        return [p for p in self.params if p not in self.callable_params] + \
+               [l for l in self.locals if l not in self.params]
+
+    def pack(self):
+        return '⟨' + ', '.join(self.nm(v) for v in self.allvars()) + '⟩'
+
+    def for_stmt(self, s, ind):
+        if s.orelse:
+            raise Untranslatable('for ... else')
+        for n in ast.walk(s):
+            if isinstance(n, ast.Break):
+                raise Untranslatable('break')
+        it = s.iter
+        if isinstance(it, ast.Call) and isinstance(it.func, ast.Name) and it.func.id == 'range' and not it.keywords \
+                and 1 <= len(it.args) <= 3:
+            a = [self.expr(x) for x in it.args]
+            if len(a) == 1:
+                a = ['(V.int 0)', a[0], '(V.int 1)']
+            elif len(a) == 2:
+                a = [a[0], a[1], '(V.int 1)']
+            iterable = f'(← V.pyRange {a[0]} {a[1]} {a[2]})'
+        else:
+            iterable = self.expr(it)
+        self.nloops += 1
+        k = self.nloops
+        base = self.nm(self.lean_name)
+        loc = f'{base}_Locals'
+        cps = [p for p in self.params if p in self.callable_params]
+        cp_sig = ''.join(f' ({self.nm(p)} : {"V → " * self.callable_params[p]}M V)' for p in cps)
+        cp_args = ''.join(' ' + self.nm(p) for p in cps)
+        var = self.nm(s.target.id)
+        # body function
+        self.in_loop += 1
+        body = self.block(s.body, '  ')
+        self.in_loop -= 1
+        lines = [f'def {base}_body{k}{cp_sig} (s : {loc}) : M (Ctl {loc}) := do']
+        for v in self.allvars():
+            lines.append(f'  let mut {self.nm(v)} := s.{self.nm(v)}')
+        lines += body
+        lines.append(f'  return Ctl.next {self.pack()}')
+        lines.append('')
+        lines += [f'def {base}_loop{k}{cp_sig} : V → {loc} → M (Ctl {loc})',
+                  f'  | .cons x rest, s => do',
+                  f'      match ← {base}_body{k}{cp_args} {{ s with {var} := x }} with',
+                  f'      | .ret v => return .ret v',
+                  f'      | .next s\' => {base}_loop{k}{cp_args} rest s\'',
+                  f'  | .nil, s => return .next s',
+                  f'  | _, _ => throw Err.typeError', '']
+        self.aux.append('\n'.join(lines))
+        out = [f'{ind}match ← {base}_loop{k}{cp_args} {iterable} {self.pack()} with',
+               f'{ind}| .ret v => return {"Ctl.ret v" if self.in_loop else "v"}',
+               f'{ind}| .next s =>']
+        for v in self.allvars():
+            out.append(f'{ind}    {self.nm(v)} := s.{self.nm(v)}')
+        return out
 
     def stmt(self, s, ind):
         if isinstance(s, ast.Expr) and isinstance(s.value, ast.Constant) and isinstance(s.value.value, str):
@@ -250,9 +359,24 @@ class FnTranslator:
         if isinstance(s, ast.Pass):
             return [ind + 'pure ()']
         if isinstance(s, ast.Return):
-            if s.value is None:
-                return [ind + 'return V.none']
-            return [f'{ind}return {self.expr(s.value)}']
+            v = 'V.none' if s.value is None else self.expr(s.value)
+            if self.in_loop:
+                return [f'{ind}return Ctl.ret {v}']
+            return [f'{ind}return {v}']
+        if isinstance(s, ast.Continue):
+            if not self.in_loop:
+                raise Untranslatable('continue outside a loop')
+            return [f'{ind}return Ctl.next {self.pack()}']
+        if isinstance(s, ast.Expr) and isinstance(s.value, ast.Call) and isinstance(s.value.func, ast.Attribute) \
+                and s.value.func.attr in ('append', 'extend') and isinstance(s.value.func.value, ast.Name) \
+                and len(s.value.args) == 1 and not s.value.keywords:
+            tgt = s.value.func.value.id
+            if tgt not in self.locals:
+                raise Untranslatable(f'.{s.value.func.attr} on a name that is never assigned: {tgt}')
+            fn = 'V.append' if s.value.func.attr == 'append' else 'V.extend'
+            return [f'{ind}{self.nm(tgt)} := (← {fn} {self.nm(tgt)} {self.expr(s.value.args[0])})']
+        if isinstance(s, ast.For):
+            return self.for_stmt(s, ind)
         if isinstance(s, ast.Raise):
             exc = s.exc
             name = exc.func.id if isinstance(exc, ast.Call) and isinstance(exc.func, ast.Name) else \
@@ -261,7 +385,14 @@ class FnTranslator:
                 raise Untranslatable(f'raise {name}')
             return [f'{ind}throw {_EXC[name]}']
         if isinstance(s, ast.AugAssign):
-            if type(s.op) not in _BIN or not isinstance(s.target, ast.Name):
+            if type(s.op) not in _BIN:
+                raise Untranslatable('augmented assignment')
+            if isinstance(s.target, ast.Subscript):
+                cur = self.expr(s.target)
+                t = self.fresh()
+                out = [f'{ind}let {t} := (← {_BIN[type(s.op)]} {cur} {self.expr(s.value)})']
+                return out + self.assign_to(s.target, t, ind)
+            if not isinstance(s.target, ast.Name):
                 raise Untranslatable('augmented assignment')
             t = self.nm(s.target.id)
             return [f'{ind}{t} := (← {_BIN[type(s.op)]} {t} {self.expr(s.value)})']
@@ -324,6 +455,7 @@ class FnTranslator:
         """`default_values`: {param: Lean term} for parameters that have defaults and are dropped from the
         Lean signature when the default is a translated constant (kept as a parameter otherwise)."""
         name = lean_name or self.fn.name
+        self.lean_name = name
         sig = []
         for p in self.params:
             if p in self.callable_params:
@@ -331,16 +463,26 @@ class FnTranslator:
             else:
                 sig.append(f'({self.nm(p)} : V)')
         lines = []
+        has_loops = any(isinstance(n, ast.For) for n in ast.walk(self.fn))
+        body = None
+        if has_loops:
+            body = self.block(self.fn.body, '  ')     # fills self.aux
+            lines.append(f'structure {self.nm(name)}_Locals where')
+            for v in self.allvars():
+                lines.append(f'  {self.nm(v)} : V')
+            lines.append('')
+            lines += self.aux
         if doc:
             lines.append(f'/-- {doc} -/')
         lines.append(f'def {self.nm(name)} {" ".join(sig)} : M V := do')
         for p in self.params:
-            if p in self.locals:
+            if p in self.locals or (has_loops and p not in self.callable_params):
                 lines.append(f'  let mut {self.nm(p)} := {self.nm(p)}')
         for l in self.locals:
             if l not in self.params:
                 lines.append(f'  let mut {self.nm(l)} : V := V.none')
-        body = self.block(self.fn.body, '  ')
+        if body is None:
+            body = self.block(self.fn.body, '  ')
         lines += body
         last = self.fn.body[-1]
         if not isinstance(last, (ast.Return, ast.Raise)):
@@ -377,7 +519,8 @@ def translate_functions(objs, namespace, header, constants=None):
                                                  f'({getattr(obj, "__module__", "?")})')
         out.append(body)
         out.append('')
-        known[fn.name] = tr.nm(lname or fn.name)
+        known[fn.name] = (tr.nm(lname or fn.name),
+                          {i: tr.callable_params[p] for i, p in enumerate(tr.params) if p in tr.callable_params})
     out.append(f'end {namespace}')
     out.append('')
     return '\n'.join(out)
@@ -400,7 +543,7 @@ def show_v(v):
         return 'q' + v
     if isinstance(v, slice):
         return 's(%s,%s,%s)' % (show_v(v.start), show_v(v.stop), show_v(v.step))
-    if isinstance(v, tuple):
+    if isinstance(v, (tuple, list)):
         return '(' + ';'.join(show_v(x) for x in v) + ')'
     raise ValueError('value outside the fragment: %r' % (v,))
 
@@ -416,4 +559,6 @@ def arg_v(v):
     """argument token for the driver"""
     if isinstance(v, slice):
         return 's' + ','.join('_' if x is None else str(int(x)) for x in (v.start, v.stop, v.step))
+    if isinstance(v, (tuple, list)):
+        return 'L' + ';'.join(arg_v(x) for x in v)
     return show_v(v)
